@@ -1,6 +1,7 @@
 package main
 
 import (
+	"os"
 	"fmt"
 	"go/token"
 	"sort"
@@ -306,16 +307,55 @@ func (re *reflEval) eventsIn(fn *ssa.Function, env map[ssa.Value]rabs, depth int
 			any := false
 			var table *constTable
 			tableArg := -1
+			tableCols := map[int]int{}
+			tableMixed := false
 			for i, a := range args {
 				abs[i] = re.absIn(fn, env, a, 0)
 				if interesting(abs[i]) {
 					any = true
 				}
 				if abs[i].kind == "" {
-					if ct, _, elem := re.ix.c.tableElemField(a); ct != nil && elem != nil {
-						table, tableArg = ct, i
+					if ct, fidx, elem := re.ix.c.tableElemField(a); ct != nil && elem != nil {
+						if isStringType(a.Type()) {
+							// one field of the current row (several arguments may each be one)
+							if table != nil && table.G != ct.G {
+								tableMixed = true
+							}
+							table = ct
+							tableCols[i] = fidx
+						} else {
+							if table != nil && table.G != ct.G {
+								tableMixed = true
+							}
+							table, tableArg = ct, i
+						}
 					}
 				}
+			}
+			// (or several arguments are fields of the current row of one table - local, or package-level and never
+			// written after initialisation - that a full loop visits)
+			cols := map[int][]ssa.Value{}
+			var colRoot *ssa.Alloc
+			var colIdx ssa.Value
+			colsOK := true
+			if table == nil && any {
+				for i, a := range args {
+					if abs[i].kind != "" {
+						continue
+					}
+					rows, ea, root, okT := localTableRowsOf(a)
+					if !okT || ea == nil || !localTableLoopIsFull(ea, int64(len(rows))) {
+						continue
+					}
+					if colRoot != nil && (colRoot != root || colIdx != ea.Index) {
+						colsOK = false
+					}
+					colRoot, colIdx = root, ea.Index
+					cols[i] = rows
+				}
+			}
+			if os.Getenv("TABDBG") == "fill" {
+				fmt.Fprintf(os.Stderr, "eventsIn %s: call %s any=%v cols=%d colsOK=%v table=%v\n", fn.Name(), callee.Name(), any, len(cols), colsOK, table != nil)
 			}
 			if !any {
 				continue
@@ -329,9 +369,35 @@ func (re *reflEval) eventsIn(fn *ssa.Function, env map[ssa.Value]rabs, depth int
 			runs := [][]rabs{abs}
 			if table != nil {
 				runs = nil
+				if tableMixed {
+					return nil, false, fmt.Sprintf("%s: arguments of %s come from different tables", re.ix.c.Pos(in.Pos()), callee.Name())
+				}
 				for _, row := range table.Rows {
 					r2 := append([]rabs(nil), abs...)
-					r2[tableArg] = rabs{kind: "row", row: row}
+					if tableArg >= 0 {
+						r2[tableArg] = rabs{kind: "row", row: row}
+					}
+					for i, fidx := range tableCols {
+						if fidx < len(row) {
+							r2[i] = rabs{kind: "str", s: row[fidx]}
+						}
+					}
+					runs = append(runs, r2)
+				}
+			}
+			if table == nil && len(cols) > 0 && colsOK {
+				runs = nil
+				n := 0
+				for _, rows := range cols {
+					n = len(rows)
+				}
+				for k := 0; k < n; k++ {
+					r2 := append([]rabs(nil), abs...)
+					for i, rows := range cols {
+						if sv, isS := constString(rows[k]); isS {
+							r2[i] = rabs{kind: "str", s: sv}
+						}
+					}
 					runs = append(runs, r2)
 				}
 			}
